@@ -46,7 +46,13 @@ fn selftest_scenario(sc: &Scenario) -> RunOutput {
                 let (site, detail) = rest.split_once('|').unwrap_or(("", rest));
                 out.violation = Some(Violation { property: sc.property.clone(), oracle: "valid-value-usable".into(), kind: "panic".into(), site: site.into(), detail: format!("{}: {}", type_name(sc.type_index), detail) });
             }
-            None => out.harness_error = Some(format!("{}: {}", type_name(sc.type_index), e)),
+            None => match e.strip_prefix("STALE:") {
+                Some(rest) => {
+                    let (site, detail) = rest.split_once('|').unwrap_or(("", rest));
+                    out.violation = Some(Violation { property: sc.property.clone(), oracle: "0-requested-value".into(), kind: "stale-buffer".into(), site: site.into(), detail: format!("{}: {}", type_name(sc.type_index), detail) });
+                }
+                None => out.harness_error = Some(format!("{}: {}", type_name(sc.type_index), e)),
+            },
         },
     }
     out
